@@ -265,3 +265,6 @@ def check(ctx):
     r2_chain_per_handler(ctx)
     r3_stage_assembly(ctx)
     r4_stage_template(ctx)
+
+
+CLAUSE += '; a list of component ids is never handed to an unstable sort in the pipeline builders'
